@@ -7,6 +7,7 @@ import (
 
 	"github.com/llir/llvm/ir"
 	"github.com/llir/llvm/ir/constant"
+	"github.com/llir/llvm/ir/enum"
 	"github.com/llir/llvm/ir/metadata"
 	"github.com/llir/llvm/ir/types"
 	"github.com/llir/llvm/ir/value"
@@ -27,6 +28,8 @@ type c14world struct {
 	nname  int
 	limit  *constant.Int   // integer constant in use by @limit; edited in place by one operation
 	ratio  *constant.Float // floating-point constant in use by @ratio
+	gdecl  *ir.Global      // global created as a declaration (no initializer, no linkage)
+	fdecl  *ir.Func        // function created as a declaration (no body)
 }
 
 func c14new() *c14world {
@@ -150,6 +153,37 @@ func c14ops() []c14op {
 			// a node that already carries a number (as one taken from a parsed module does).
 			md := &metadata.Tuple{MetadataID: 7, Fields: []metadata.Field{&metadata.String{Value: "z"}}}
 			w.m.MetadataDefs = append(w.m.MetadataDefs, md)
+		}},
+		// declarations that later become definitions, and attribute fields set after a print: a
+		// printer that stores a default it has just printed (a linkage, a type, a flag) into the
+		// IR is contradicted by the edit that follows.
+		{"m.NewGlobal(declaration without linkage)", "append-global", "global", func(w *c14world) bool { return w.gdecl == nil }, func(w *c14world) {
+			w.gdecl = w.m.NewGlobal(w.name("d"), types.I32)
+		}},
+		{"give the declared global an initializer (Init = 42)", "define-declaration", "global-attr", func(w *c14world) bool { return w.gdecl != nil && w.gdecl.Init == nil }, func(w *c14world) {
+			w.gdecl.Init = constant.NewInt(types.I32, 42)
+		}},
+		{"set Linkage = internal on the declared global / the first function", "set-linkage", "global-attr", func(w *c14world) bool {
+			return (w.gdecl != nil && w.gdecl.Linkage == enum.LinkageNone) || (len(w.funcs) > 0 && w.funcs[0].Linkage == enum.LinkageNone)
+		}, func(w *c14world) {
+			if w.gdecl != nil && w.gdecl.Linkage == enum.LinkageNone {
+				w.gdecl.Linkage = enum.LinkageInternal
+			} else {
+				w.funcs[0].Linkage = enum.LinkageInternal
+			}
+		}},
+		{"m.NewFunc(declaration, no body)", "append-func", "global", func(w *c14world) bool { return w.fdecl == nil }, func(w *c14world) {
+			w.fdecl = w.m.NewFunc(w.name("fd"), types.I32, ir.NewParam("", types.I32))
+		}},
+		{"give the declared function a body", "define-declaration", "global-attr", func(w *c14world) bool { return w.fdecl != nil && len(w.fdecl.Blocks) == 0 }, func(w *c14world) {
+			b := w.fdecl.NewBlock("")
+			b.NewRet(w.fdecl.Params[0])
+		}},
+		{"make the first global constant / thread_local / unnamed_addr", "set-attrs", "global-attr", func(w *c14world) bool { return len(w.m.Globals) > 0 && !w.m.Globals[0].Immutable }, func(w *c14world) {
+			g := w.m.Globals[0]
+			g.Immutable = true
+			g.TLSModel = enum.TLSModelGeneric
+			g.UnnamedAddr = enum.UnnamedAddrUnnamedAddr
 		}},
 		{"prepend metadata def", "insert-metadata", "metadata", func(w *c14world) bool { return len(w.m.MetadataDefs) > 0 }, func(w *c14world) {
 			md := &metadata.Tuple{MetadataID: -1, Fields: []metadata.Field{&metadata.String{Value: "y"}}}
@@ -528,7 +562,7 @@ func runC14(c *fw.Check) {
 		maxLen, maxLen2 = 5, 4
 		c.SetBudget(40 * 60 * 1e9)
 	}
-	c.Rule = fmt.Sprintf("all edit histories of length <=%d over %d edit operations (append/insert/remove instructions, set/replace terminators (incl. value-producing unnamed invokes), name/rename/unname values, blocks and globals, add globals/functions/blocks, name a struct type in use, append/prepend metadata, append a metadata definition that already carries a sparse explicit ID, take the address of a global in another global, change a global's address space; <=2 functions, <=3 blocks) on a fresh module, replayed from scratch; for each history the observer-free run is the reference and EVERY placement of one observer (of %d kinds) at every position is executed (two observers for histories of length <=%d); oracle: final String() equals the reference, no panic on a complete module, String() twice identical. distinct = (history, observer placement).", maxLen, len(ops), len(obs), maxLen2)
+	c.Rule = fmt.Sprintf("all edit histories of length <=%d over %d edit operations (append/insert/remove instructions, set/replace terminators (incl. value-producing unnamed invokes), name/rename/unname values, blocks and globals, add globals/functions/blocks, name a struct type in use, append/prepend metadata, append a metadata definition that already carries a sparse explicit ID, take the address of a global in another global, change a global's address space; create a global / function as a declaration, later give it an initializer / a body, set linkage and other attributes; <=2 functions, <=3 blocks) on a fresh module, replayed from scratch; for each history the observer-free run is the reference and EVERY placement of one observer (of %d kinds) at every position is executed (two observers for histories of length <=%d); oracle: final String() equals the reference, no panic on a complete module, String() twice identical. distinct = (history, observer placement).", maxLen, len(ops), len(obs), maxLen2)
 	// enumerate histories (BFS over enabled ops).
 	var hists [][]int
 	var rec func(seq []int)
